@@ -172,7 +172,10 @@ Fixpoint open_trace (ci:chain_index) (o:Drive.openset) (hs:list N) : list (N * D
 Record opts := { o_range : range; o_verify : bool }.
 Record result := { r_delivered : list (N * eblock); r_cur : N; r_fail : option (N * failure); r_ci : chain_index }.
 Inductive outcome := Run (r:result) | StartupPanic | StartupError.
+(* main.rs:42-47 BlockHeightRange::new: "--start value must be lower than --end value" *)
+Definition range_ok (r:range) : bool := match o_end r with Some e => o_start r <? e | None => true end.
 Definition run_case (c:coin) (d:datadir) (o:opts) : outcome :=
+  if negb (range_ok (o_range o)) then StartupError else
   match d_files d with [] => StartupError | _ =>      (* "No blk files found!" *)
   match new_index (d_index d) (o_range o) with
   | Ok ci =>
